@@ -40,6 +40,10 @@ PRIMITIVES = {'normalize': 4, 'normalize1': 4, '_normalize': 4, '_normalize1': 4
 # exact when called without precision, result class = class of argument 0
 EXACT_PRESERVING = {'mpf_neg', 'mpf_abs', 'mpf_shift', 'mpf_pos', 'mpc_neg', 'mpc_shift',
                     'mpc_conjugate_exact'}
+# exact integer-part operation (its internal mpf_pos to `mag` bits IS the
+# operation, not a rounding of the result)
+EXACT_INTEGER_PART = {'mpf_round_int'}
+SMALL_CLOSED = {'mpf_add', 'mpf_sub', 'mpf_neg', 'mpf_abs', 'mpf_pos'}
 PREC_NAMES = ('prec', 'wp')
 
 
@@ -93,6 +97,56 @@ class Aff(object):
 
 P = Aff(0, [('P', 1)])
 
+# ---- rounding-mode terms ------------------------------------------------------
+# 'v' + flags: the caller's mode variable, possibly mapped through negative_rnd
+# ('n') and/or reciprocal_rnd ('r'); a single letter: constant mode; 'U': unknown
+ROUND_CONSTS = {'round_floor': 'f', 'round_ceiling': 'c', 'round_down': 'd', 'round_up': 'u',
+                'round_nearest': 'n', 'round_fast': 'd'}
+_NEG = {'f': 'c', 'c': 'f', 'd': 'd', 'u': 'u', 'n': 'n'}
+_REC = {'f': 'c', 'c': 'f', 'd': 'u', 'u': 'd', 'n': 'n'}
+
+
+def mode_neg(m):
+    if m == 'U':
+        return m
+    if m.startswith('v'):
+        fl = set(m[1:])
+        fl ^= {'n'}
+        return 'v' + ''.join(sorted(fl))
+    return _NEG[m]
+
+
+def mode_rec(m):
+    if m == 'U':
+        return m
+    if m.startswith('v'):
+        fl = set(m[1:])
+        fl ^= {'r'}
+        return 'v' + ''.join(sorted(fl))
+    return _REC[m]
+
+
+def mode_compose(callee, actual):
+    """callee's mode term instantiated with the actual mode passed by the caller"""
+    if callee == 'U' or not callee.startswith('v'):
+        return callee
+    out = actual
+    if 'n' in callee[1:]:
+        out = mode_neg(out)
+    if 'r' in callee[1:]:
+        out = mode_rec(out)
+    return out
+
+
+def mkR(aff, mode='v', single=True):
+    return ('R', aff, mode, single)
+
+
+def mode_text(m):
+    return {'v': "caller's mode", 'vn': "negative_rnd[mode]", 'vr': 'reciprocal_rnd[mode]',
+            'vnr': 'negative_rnd[reciprocal_rnd[mode]]', 'U': 'unknown mode',
+            'd': 'round-down (default)'}.get(m, 'constant mode %r' % m)
+
 
 def bounded_by_P(cls):
     """True if a value of this class carries at most P bits"""
@@ -115,7 +169,12 @@ def describe(cls):
     if cls == X:
         return 'exact (unrounded) result'
     if cls[0] == 'R':
-        return 'rounded to %s bits' % (cls[1] if cls[1] != 'U' else 'an unrelated number of')
+        t = 'rounded to %s bits' % (cls[1] if cls[1] != 'U' else 'an unrelated number of')
+        if len(cls) > 2 and cls[2] != 'v':
+            t += ' with %s' % mode_text(cls[2])
+        if len(cls) > 3 and not cls[3]:
+            t += ' (of an already rounded intermediate)'
+        return t
     if cls[0] == 'A':
         return 'operand %s%s passed through unrounded' % (cls[1], ''.join('[%d]' % i for i in cls[2]))
     if cls[0] == 'T':
@@ -222,6 +281,22 @@ def compact(ws):
     if len(out) <= MAXWORLDS:
         return out
     return frozenset([merge_worlds(out)])
+
+
+def _has_rounded(c):
+    if c[0] == 'R':
+        return True
+    if c[0] == 'P':
+        return any(_has_rounded(k) for k in c[1] | c[2])
+    return False
+
+
+def _map_modes(c, fn):
+    if c[0] == 'R':
+        return ('R', c[1], fn(c[2]), c[3])
+    if c[0] == 'P':
+        return pair([_map_modes(k, fn) for k in c[1]], [_map_modes(k, fn) for k in c[2]])
+    return c
 
 
 def _norm_classes(classes):
@@ -436,6 +511,15 @@ class KernelAnalysis(FlowAnalysis):
                 for v in vals[1:]:
                     out = self.union(out, v)
                 return out
+        if isinstance(base, ast.Name) and base.id not in w.env:
+            d = self.eng.module_dict(base.id)
+            if d is not None:
+                vals = [self.ev(x, w) for x in d.values]
+                if vals:
+                    out = vals[0]
+                    for x in vals[1:]:
+                        out = self.union(out, x)
+                    return out
         v = self.ev(base, w)
         if v[0] == 'mpf' and isinstance(e.slice, ast.Constant) and e.slice.value in (0, 1):
             out = set()
@@ -472,12 +556,16 @@ class KernelAnalysis(FlowAnalysis):
             return INT([P]) if self.mode == 'context' else self.opaque(call)
         if name in ('prec_to_dps', 'bitcount', 'int', 'max', 'min', 'abs', 'len'):
             return self.ev_other_call(call, w)
+        if name in EXACT_INTEGER_PART:
+            # floor/ceil/nint of the operand as an exact integer (unbounded)
+            return MPF([X])
         if name in PRIMITIVES:
             idx = PRIMITIVES[name]
             pe = args[idx] if len(args) > idx else kw.get('prec')
             if pe is None:
                 return MPF([('T', 'rounding primitive without precision')])
-            return MPF(self.rounded(self.ev(pe, w)))
+            re_ = args[idx + 1] if len(args) > idx + 1 else kw.get('rnd')
+            return MPF(self.rounded(self.ev(pe, w), self.ev_mode(re_, w)))
         if name == 'from_man_exp' or name == 'from_int' or name == 'from_float' or \
                 name == 'from_rational' or name == 'from_str' or name == 'from_npfloat' or \
                 name == 'from_Decimal':
@@ -489,7 +577,11 @@ class KernelAnalysis(FlowAnalysis):
             pv = self.ev(pe, w)
             if pv[0] == 'int' and all(a.is_const() and a.c == 0 for a in pv[1]):
                 return MPF([X])
-            return MPF(self.rounded(pv))
+            re_ = args[idx + 1] if len(args) > idx + 1 else kw.get('rnd')
+            single = True
+            if name == 'from_rational':
+                single = True
+            return MPF(self.rounded(pv, self.ev_mode(re_, w), single))
         fs = self.eng.resolve(name)
         if not fs:
             return MPF([('T', 'call of %s' % name)]) if self.eng.looks_mpf(name) else UNKNOWN
@@ -512,7 +604,7 @@ class KernelAnalysis(FlowAnalysis):
             if isinstance(fn, ast.Attribute) and fn.attr == 'mpf' and \
                     norm(fn.value).endswith(('context', 'ctx')):
                 # constructor: rounded to the working precision by _mpf.__new__
-                return ('num', frozenset([('R', P)]))
+                return ('num', frozenset([mkR(P)]))
         if self.mode == 'context' and isinstance(fn, ast.Attribute):
             # x.func(prec, rounding) of a constant object; cls.mpf_convert_arg(...)
             if fn.attr == 'func' and len(call.args) == 2:
@@ -529,10 +621,46 @@ class KernelAnalysis(FlowAnalysis):
             return self.opaque(call)
         return UNKNOWN
 
-    def rounded(self, pv):
+    def rounded(self, pv, mode='v', single=True):
         if pv[0] == 'int':
-            return frozenset(('R', a) for a in pv[1])
-        return frozenset([('R', 'U')])
+            return frozenset(mkR(a, mode, single) for a in pv[1])
+        return frozenset([mkR('U', mode, single)])
+
+    def ev_mode(self, e, w, default='d'):
+        """rounding-mode term of an argument expression"""
+        if e is None:
+            return default
+        if isinstance(e, ast.Name):
+            if e.id == '__ctx_rnd__':
+                return 'v'
+            v = w.env.get(e.id)
+            if v is not None and v[0] == 'rnd':
+                m = v[1]
+                return 'v' if m in ('param', 'ctx') else m
+            if e.id in ROUND_CONSTS:
+                return ROUND_CONSTS[e.id]
+            return 'U'
+        if isinstance(e, ast.Constant) and isinstance(e.value, str) and e.value in _NEG:
+            return e.value
+        if isinstance(e, ast.Subscript) and isinstance(e.value, ast.Name):
+            if e.value.id == 'negative_rnd':
+                return mode_neg(self.ev_mode(e.slice, w))
+            if e.value.id == 'reciprocal_rnd':
+                return mode_rec(self.ev_mode(e.slice, w))
+        if isinstance(e, ast.BoolOp) and isinstance(e.op, ast.Or):
+            # rnd or round_fast
+            a = self.ev_mode(e.values[0], w)
+            return a
+        return 'U'
+
+    def operands_exact(self, vals):
+        for v in vals:
+            if v[0] != 'mpf':
+                continue
+            for c in v[1]:
+                if _has_rounded(c):
+                    return False
+        return True
 
     def apply_summary(self, f, call, args, kw, w):
         params = f.params
@@ -562,6 +690,8 @@ class KernelAnalysis(FlowAnalysis):
         if pname is None:
             # not a precision-taking kernel: result unknown unless it is a known exact helper
             s = self.eng.summary(f, None, self.const_args(f, actual, w))
+            self._amode = 'U'
+            self._aexact = True
             return self.subst(s, f, actual, None, w)
         pe = actual.get(pname)
         if pe is None:
@@ -570,15 +700,48 @@ class KernelAnalysis(FlowAnalysis):
                 return MPF([('T', 'call of %s without its precision' % f.name)])
             # exact mode
             if f.name in EXACT_PRESERVING and args:
-                return self.ev(args[0], w)
+                return self.exact_preserving(f.name, self.ev(args[0], w))
             return MPF([X])
         pv = self.ev(pe, w)
         if pv[0] == 'int' and all(a.is_const() and a.c == 0 for a in pv[1]):
             if f.name in EXACT_PRESERVING and args:
-                return self.ev(args[0], w)
+                return self.exact_preserving(f.name, self.ev(args[0], w))
             return MPF([X])
+        if f.name in SMALL_CLOSED:
+            # operations on special/zero/small constants only: the result is again
+            # special or small (inf, nan, zero, +-1, 2, ...)
+            ops = [self.ev(a, w) for p_, a in actual.items() if p_ not in (pname, 'rnd', '_sub')]
+            if ops and all(v[0] == 'mpf' and v[1] == frozenset([S]) for v in ops):
+                return MPF([S])
         s = self.eng.summary(f, pname, self.const_args(f, actual, w))
+        rname = 'rnd' if 'rnd' in params else ('rounding' if 'rounding' in params else None)
+        amode = 'U'
+        if rname is not None:
+            re_ = actual.get(rname)
+            if re_ is None:
+                d = defaults.get(rname)
+                amode = self.ev_mode(d, w) if d is not None else 'U'
+                if isinstance(d, ast.Constant) and d.value is None:
+                    amode = 'U'
+            else:
+                amode = self.ev_mode(re_, w)
+        aexact = self.operands_exact([self.ev(a, w) for p_, a in actual.items()
+                                      if p_ not in (pname, rname)])
+        # (nested calls evaluated above may have set these; set them last)
+        self._amode = amode
+        self._aexact = aexact
         return self.subst(s, f, actual, pv, w)
+
+    def exact_preserving(self, fname, v):
+        """mpf_neg/abs/shift/pos without precision: same bits; a negation turns a
+        value rounded in direction m into one rounded in direction negative_rnd[m]"""
+        if v[0] != 'mpf':
+            return v
+        if fname in ('mpf_neg', 'mpc_neg'):
+            return MPF(_map_modes(c, mode_neg) for c in v[1])
+        if fname == 'mpf_abs':
+            return MPF(_map_modes(c, lambda m: m if m in ('n',) else 'U') for c in v[1])
+        return v
 
     def const_args(self, f, actual, w):
         """constant (int/bool/None) actuals and defaults of non-precision
@@ -629,10 +792,28 @@ class KernelAnalysis(FlowAnalysis):
         if c == S or c == X or c[0] == 'T':
             return {c}
         if c[0] == 'R':
+            mode = mode_compose(c[2], getattr(self, '_amode', 'U'))
+            single = c[3] and getattr(self, '_aexact', True)
             if c[1] == 'U' or pv is None or pv[0] != 'int':
-                return {('R', 'U')}
-            return set(('R', c[1].subst('P', a)) for a in pv[1])
+                return {mkR('U', mode, single)}
+            return set(mkR(c[1].subst('P', a), mode, single) for a in pv[1])
         if c[0] == 'A':
+            saved = (getattr(self, '_amode', 'U'), getattr(self, '_aexact', True))
+            try:
+                return self._subst_arg(c, f, actual, w)
+            finally:
+                self._amode, self._aexact = saved
+        if c[0] == 'P':
+            a, b = set(), set()
+            for k in c[1]:
+                a |= self.subst1(k, f, actual, pv, w)
+            for k in c[2]:
+                b |= self.subst1(k, f, actual, pv, w)
+            return {pair(a, b)}
+        return {c}
+
+    def _subst_arg(self, c, f, actual, w):
+        if True:
             pname = c[1]
             e = actual.get(pname)
             if e is None:
@@ -655,14 +836,6 @@ class KernelAnalysis(FlowAnalysis):
                         nxt.add(k if k[0] == 'T' else ('T', 'component of non-pair'))
                 cls = nxt
             return cls
-        if c[0] == 'P':
-            a, b = set(), set()
-            for k in c[1]:
-                a |= self.subst1(k, f, actual, pv, w)
-            for k in c[2]:
-                b |= self.subst1(k, f, actual, pv, w)
-            return {pair(a, b)}
-        return {c}
 
     # ---- conditions ------------------------------------------------------------------
     def split(self, test, w):
@@ -809,6 +982,11 @@ class KernelAnalysis(FlowAnalysis):
 
     def assign(self, target, value, w):
         if isinstance(target, ast.Name):
+            if target.id in ('rnd', 'rounding') or (
+                    isinstance(value, ast.Subscript) and isinstance(value.value, ast.Name)
+                    and value.value.id in ('negative_rnd', 'reciprocal_rnd')):
+                m = self.ev_mode(value, w)
+                return w.set(target.id, ('rnd', m))
             v = self.ev(value, w)
             if isinstance(value, ast.Constant) and isinstance(value.value, bool):
                 w2 = w.set(target.id, UNKNOWN)
@@ -839,6 +1017,11 @@ class KernelAnalysis(FlowAnalysis):
                         w = w.set(inner[1].id, ('rnd', 'ctx'))
                     return w
             v = self.ev(src, w)
+            if n == 4 and isinstance(src, ast.Name) and v == UNKNOWN and \
+                    len([t for t in names if t]) == 4:
+                # unpacking (sign, man, exp, bc): the source is a raw mpf value
+                v = MPF([('T', 'value of %s' % src.id)])
+                w = w.set(src.id, v)
             if n == 4 and isinstance(src, ast.Name) and v[0] == 'mpf':
                 # sign, man, exp, bc = s
                 for i, nm in enumerate(names):
@@ -1012,6 +1195,17 @@ class RoundEngine(object):
                 continue
             out.extend(self.by_name.get(n, []))
         return out
+
+    def module_dict(self, name):
+        """module-level dict display bound to `name` in a kernel module"""
+        cache = self.__dict__.setdefault('_mdicts', {})
+        if name not in cache:
+            cache[name] = None
+            for rel in KERNEL_MODULES:
+                for n, value, st, guards in self.ix.modules[rel].toplevel_assigns:
+                    if n == name and isinstance(value, ast.Dict):
+                        cache[name] = value
+        return cache[name]
 
     def looks_mpf(self, name):
         return name.startswith(('mpf_', 'mpc_', 'from_', 'mpi_', 'mpci_'))
